@@ -282,6 +282,51 @@ func iotaBase(e ast.Expr) (int, bool) {
 	return 0, false
 }
 
+// addPackageStructs registers the struct types of another package (e.g. ecs/stats) under qualified
+// names ("stats.Archetype"); unqualified struct names inside their fields are qualified too
+func (b *book) addPackageStructs(pkg string, p *pkgFiles) {
+	local := map[string]bool{}
+	var specs []*ast.TypeSpec
+	for _, f := range p.files {
+		for _, d := range f.Decls {
+			gd, ok := d.(*ast.GenDecl)
+			if !ok || gd.Tok != token.TYPE {
+				continue
+			}
+			for _, s := range gd.Specs {
+				sp := s.(*ast.TypeSpec)
+				if _, ok := sp.Type.(*ast.StructType); ok {
+					local[sp.Name.Name] = true
+					specs = append(specs, sp)
+				}
+			}
+		}
+	}
+	var qualify func(t *gty)
+	qualify = func(t *gty) {
+		if t == nil {
+			return
+		}
+		if t.kind == "named" && local[t.name] {
+			t.name = pkg + "." + t.name
+		}
+		qualify(t.elem)
+		qualify(t.key)
+	}
+	for _, sp := range specs {
+		st := sp.Type.(*ast.StructType)
+		gs := &gstruct{name: pkg + "." + sp.Name.Name, used: map[string]bool{}}
+		for _, fl := range st.Fields.List {
+			ty := b.goType(fl.Type, nil)
+			qualify(ty)
+			for _, n := range fl.Names {
+				gs.fields = append(gs.fields, gfield{n.Name, ty})
+			}
+		}
+		b.structs[gs.name] = gs
+	}
+}
+
 func (b *book) goType(e ast.Expr, tparams map[string]bool) *gty {
 	switch t := e.(type) {
 	case *ast.Ident:
@@ -339,7 +384,7 @@ func (b *book) leanStruct(name string) string {
 	if ext, ok := bookExternal[name]; ok {
 		return ext
 	}
-	return "G_" + name
+	return "G_" + strings.ReplaceAll(name, ".", "_")
 }
 
 func (b *book) leanType(t *gty) string {
@@ -1108,7 +1153,42 @@ func (c *bctx) callStmt(x *ast.CallExpr, out *strings.Builder, ind string, k bco
 		return true, ""
 	}
 	if len(info.ptrParams) > 0 {
-		c.bad(x, "call of a method that mutates pointer parameters")
+		// the mutated pointer parameters come back after the receiver: bind them and write them back
+		// through the argument expressions
+		if info.mayPanic || info.ret != nil {
+			c.bad(x, "call of a method that mutates pointer parameters and panics or returns a value")
+			return true, ""
+		}
+		rs, _ := c.expr(sel.X)
+		args := []string{"(" + rs + ")"}
+		for _, a := range x.Args {
+			as, _ := c.expr(a)
+			args = append(args, "("+as+")")
+		}
+		app := "(" + info.callee() + " " + strings.Join(args, " ") + ")"
+		var parts []string
+		recvTmp := ""
+		if info.mutRecv {
+			recvTmp = c.fresh("recv")
+			parts = append(parts, recvTmp)
+		}
+		tmps := map[string]string{}
+		for _, pp := range info.ptrParams {
+			t := c.fresh("out")
+			tmps[pp] = t
+			parts = append(parts, t)
+		}
+		fmt.Fprintf(out, "%slet %s := %s\n", ind, tupleOf(parts), app)
+		if info.mutRecv {
+			c.vars[recvTmp] = &bvar{ty: bt}
+			c.setPath(c.resolve(sel.X), recvTmp, out, ind)
+		}
+		for i, pr := range info.params {
+			if t, ok := tmps[pr.name]; ok {
+				c.vars[t] = &bvar{ty: pr.ty.deref()}
+				c.setPath(c.resolve(x.Args[i]), t, out, ind)
+			}
+		}
 		return true, ""
 	}
 	if info.mayPanic {
@@ -1731,7 +1811,8 @@ func (c *bctx) forStmt(s *ast.ForStmt, out *strings.Builder, ind string) {
 	init, ok1 := s.Init.(*ast.AssignStmt)
 	cond, ok2 := s.Cond.(*ast.BinaryExpr)
 	post, ok3 := s.Post.(*ast.IncDecStmt)
-	if !ok1 || !ok2 || !ok3 || init.Tok != token.DEFINE || len(init.Lhs) != 1 || cond.Op != token.LSS || post.Tok != token.INC {
+	// `for i := lo; i < hi; i++` and `for i = lo; i < hi; i++` (the variable is not used after the loop)
+	if !ok1 || !ok2 || !ok3 || (init.Tok != token.DEFINE && init.Tok != token.ASSIGN) || len(init.Lhs) != 1 || cond.Op != token.LSS || post.Tok != token.INC {
 		c.bad(s, "for statement")
 		return
 	}
@@ -1744,25 +1825,38 @@ func (c *bctx) forStmt(s *ast.ForStmt, out *strings.Builder, ind string) {
 		c.bad(s, "for post statement")
 		return
 	}
-	hi, ok := cond.Y.(*ast.CallExpr)
-	if !ok || src(hi.Fun) != "len" {
-		c.bad(s, "for bound (only len(x))")
-		return
-	}
-	// the body must not assign the measured slice as a whole
-	for _, st := range s.Body.List {
-		if as, ok := st.(*ast.AssignStmt); ok {
-			for _, l := range as.Lhs {
-				if src(l) == src(hi.Args[0]) {
-					c.bad(s, "loop body assigns the slice that bounds the loop")
-					return
+	// the bound: len(x) of a slice the body does not assign as a whole, or an integer variable the body
+	// does not assign
+	switch hi := cond.Y.(type) {
+	case *ast.CallExpr:
+		if src(hi.Fun) != "len" {
+			c.bad(s, "for bound (only len(x) or a variable)")
+			return
+		}
+		for _, st := range s.Body.List {
+			if as, ok := st.(*ast.AssignStmt); ok {
+				for _, l := range as.Lhs {
+					if src(l) == src(hi.Args[0]) {
+						c.bad(s, "loop body assigns the slice that bounds the loop")
+						return
+					}
 				}
 			}
 		}
+	case *ast.Ident:
+		for _, n := range c.assignedIn(s.Body.List) {
+			if n == hi.Name {
+				c.bad(s, "loop body assigns the variable that bounds the loop")
+				return
+			}
+		}
+	default:
+		c.bad(s, "for bound (only len(x) or a variable)")
+		return
 	}
 	lo, _ := c.expr(init.Rhs[0])
-	his, _ := c.expr(hi)
-	c.under = append(c.under, src(hi)+" - "+src(init.Rhs[0]))
+	his, _ := c.expr(cond.Y)
+	c.under = append(c.under, src(cond.Y)+" - "+src(init.Rhs[0]))
 	c.loop("List.range' ("+lo+") ("+his+" - "+lo+")", iv, func(b *strings.Builder, ind string) {
 		c.vars[iv] = &bvar{ty: tyInt}
 	}, s.Body.List, out, ind)
@@ -2080,10 +2174,13 @@ var bookGroups = []bookGroup{
 		{"observerManager", "RemoveObserver"}, {"observerManager", "AddObserver"}}, "import Ark.Generated.Words"},
 	{"BookTableCaps", "table.go: the capacity decisions of Extend / Shrink / CanShrink (adjustCapacity modelled as `cap := c`)", []bookFnKey{
 		{"table", "Extend"}, {"table", "Shrink"}, {"table", "CanShrink"}}, "import Ark.Model.Table"},
+	{"BookStats", "the incremental statistics of archetype.go / table.go (archetype.UpdateStats over the re-used stats.Archetype)", []bookFnKey{
+		{"table", "Stats"}, {"table", "UpdateStats"}, {"archetype", "UpdateStats"}}, ""},
 }
 
-func genBook(p *pkgFiles, files map[string]string) {
+func genBook(p *pkgFiles, statsPkg *pkgFiles, files map[string]string) {
 	b := newBook(p)
+	b.addPackageStructs("stats", statsPkg)
 	owner := map[bookFnKey]string{} // function -> generated file that defines it
 	emittedStructs := map[string]bool{}
 	var prevFiles []string
@@ -2180,8 +2277,8 @@ func genBook(p *pkgFiles, files map[string]string) {
 			if strings.Contains(strings.Join(lines, " "), "M64") || strings.Contains(strings.Join(lines, " "), "M256") {
 				deriving = "DecidableEq"
 			}
-			fmt.Fprintf(&out, "/-- Go `%s` (the fields used by the translated functions) -/\nstructure G_%s where\n%s  deriving %s\n\n",
-				name, name, strings.Join(append(lines, ""), "\n"), deriving)
+			fmt.Fprintf(&out, "/-- Go `%s` (the fields used by the translated functions) -/\nstructure %s where\n%s  deriving %s\n\n",
+				name, b.leanStruct(name), strings.Join(append(lines, ""), "\n"), deriving)
 			if deriving == "DecidableEq" {
 				allDefault := true
 				for _, l := range lines {
@@ -2190,7 +2287,7 @@ func genBook(p *pkgFiles, files map[string]string) {
 					}
 				}
 				if allDefault { // Go's zero value
-					fmt.Fprintf(&out, "instance : Inhabited G_%s := ⟨{}⟩\n\n", name)
+					fmt.Fprintf(&out, "instance : Inhabited %s := ⟨{}⟩\n\n", b.leanStruct(name))
 				}
 			}
 		}
